@@ -51,7 +51,12 @@ MANIFEST = {
             "187+8*src / 187+10*src ms timers (both timer flavours, wrap-around included) and a due timer re-sends on the next "
             "poll; with BOTH answers pending a poll between the two deadlines keeps the configuration timer and the "
             "HasPendingInformation flag, so one poll after the later deadline sends it; the flag is exact after every attempt; "
-            "a refused NAK is not retried. Correspondence: the real node behind the mock driver vs the model on generated "
+            "a refused NAK is not retried. Run level (C08_every_request_answered_partial, C08_owed_product_* / C08_owed_config_*): "
+            "over EVERY history of events (requests for any PGN/destination/source, polls, clock advances, driver changes, "
+            "claims) from any state, each request's specified answer block is handed to SendMsg at its event (nothing while "
+            "claiming, data or exactly one NAK, never a NAK for a broadcast); an armed product/configuration retry survives any "
+            "history until the answer is handed over again, which - fairness stated as a hypothesis - happens at the latest at "
+            "a poll at which the armed timer is due; a cleared timer is never due. Correspondence: the real node behind the mock driver vs the model on generated "
             "requests (special PGNs +-1, ignore list, random and - thorough - all 2^24 PGNs against an independent decoder "
             "oracle plus 2^18 stratified through the model), 1..9 devices, handlers, strings beyond the limits, claim windows, "
             "driver refusals with retry, product AND configuration information refused together (same/different devices, "
@@ -62,5 +67,6 @@ MANIFEST = {
     'note': "One defect of the pinned tree is fixed in the worktree (126998 requested with nothing configured was NAKed to "
             "address 255, also for broadcast requests); the model follows the fixed code. Trusted: Lean kernel; hand "
             "transcription validated by differential runs only; AddVarStr for 7-bit strings only; the 'sends not refused' part of "
-            "'always answered' is C11's.",
+            "'always answered' is C11's: the run-level theorem is message level (handed to SendMsg) and therefore named _partial; "
+            "'driver accepts => on the bus' is proved per message (C08_nak_on_bus, C01, C11), not composed over histories.",
 }
